@@ -400,6 +400,11 @@ pub fn check_def(id: &str) -> Option<CheckDef> {
                 vec![],
             )
         },
+        "C23" => CheckDef {
+            quick_runs: 80_000,
+            thorough_runs: 2_000_000,
+            ..d("C23", vec![tagged_profile()])
+        },
         "C25" => d("C25", vec![iterate_profile()]),
         "C26" => CheckDef {
             quick_runs: 60_000,
@@ -618,6 +623,10 @@ pub fn judge(id: &str, sc: &Scenario, hash_seeds: usize) -> (Judged, RunResult, 
         "C05" => {
             let r = run(sc);
             (judge_c05(sc, &r), r, sc.clone())
+        }
+        "C23" => {
+            let (j, r) = crate::c23::judge_c23(sc);
+            (j, r, sc.clone())
         }
         "C26" => {
             let (j, r) = crate::c26::judge_c26(sc);
